@@ -2,7 +2,37 @@
 # development aid (session 3): lexical matrices L2-L5 for the document properties, then coverage distillation
 while ! grep -q CHAINB-DONE /tmp/chainB.log 2>/dev/null; do sleep 30; done
 cd /verif
-/venv/bin/python -m tools.triage C01,C02,C03,C04,C05 L2,L3,L4,L5
+/venv/bin/python -m tools.triage C01,C02,C03,C04,C05 L2,L3,L4,L5,H5
 echo CHAINC-TRIAGE-DONE
 /venv/bin/python -m tools.distill parse
 echo CHAINC-DONE
+# appended while waiting: rule-trigger universe Q2 and the extension matrix X3 for the scan-level properties / C20
+/venv/bin/python -m tools.triage_engine C06 Q2
+/venv/bin/python -m tools.triage_engine C07 Q2
+/venv/bin/python -m tools.triage_engine C08 Q2
+/venv/bin/python -m tools.triage_engine C09 Q2
+/venv/bin/python -m tools.triage_engine C10 Q2/3
+/venv/bin/python -m tools.triage_engine C11 Q2
+/venv/bin/python -m tools.triage_engine C12 Q2/9
+/venv/bin/python -m tools.triage_engine C20 X3/9
+echo CHAINC2-DONE
+/venv/bin/python -m tools.triage C01,C02,C03,C04,C05 P3
+/venv/bin/python -m tools.triage_engine C07 P3
+/venv/bin/python -m tools.triage_engine C08 P3
+/venv/bin/python -m tools.triage_engine C09 P3
+/venv/bin/python -m tools.triage_engine C10 P3/5
+/venv/bin/python -m tools.triage_engine C11 P3/2
+/venv/bin/python -m tools.triage_engine C12 P3/17
+/venv/bin/python -m tools.triage_engine C16
+echo CHAINC3-DONE
+/venv/bin/python -m tools.triage_engine C06
+echo CHAINC4-DONE
+# after the failure-line parser learnt negative columns (MD032 reports 1:-3 on a few B2 documents)
+/venv/bin/python -m tools.triage_engine C07
+/venv/bin/python -m tools.triage_engine C08 B2/53
+/venv/bin/python -m tools.triage_engine C09 B2/53
+/venv/bin/python -m tools.triage_engine C10 B2/53
+/venv/bin/python -m tools.triage_engine C11 B2/53
+/venv/bin/python -m tools.triage_engine C12 B2/211
+/venv/bin/python -m tools.distill scan
+echo CHAINC5-DONE
